@@ -7,6 +7,10 @@ LEVEL = 'proof'
 
 def run(rep):
     enginep.engine_deductive(rep, enginep.META_FUNS + ['engine.YP.query', 'engine.unify'])
+    # an inline goal reaches these builtins only through the compiled clause: a predicate goal (=, \\=, call, once, findall included) is
+    # compiled to one query(name, args) loop around the rest of the body (compile_body / compile_predicate contracts of C01)
+    from . import control
+    control.body_deductive(rep)
     q = rep.tier == 'quick'
     fw.standin(rep, 's_c09.py', ['run', rep.seed, 400], '= and \\= as goals (API and compiled) vs the engine\'s unify on every pair of term shapes, '
                'including pairs whose unifier is cyclic', 'all 361 ordered pairs of 19 term shapes')
